@@ -302,6 +302,9 @@ def handle0 (d : DState) (line : String) : DState × String :=
   | [] => (d, "ERR empty")
 
 
+def optNat0 (s : String) : Option (Option Nat) :=
+  if s == "-1" then some none else s.toNat?.map some
+
 def wordsOf (s : String) : Option (List (BitVec 64)) := (nats s).map fun l => l.map (BitVec.ofNat 64)
 def showWords (l : List (BitVec 64)) : String := showNats (l.map BitVec.toNat)
 
@@ -452,6 +455,46 @@ def handleKernel (line : String) : Option String :=
         let kk := if k == "-" then none else k.toNat?
         some (match Families.lookup name n kk with
           | some d => s!"ok ; {d.name} ; {" | ".intercalate d.names} ; {showNats d.central} ; {showLL d.gens}"
+          | none => "none")
+      | none => some "ERR parse"
+    | ["enc.narrow", bits, sgn, w, n], [st] =>
+      match bits.toNat?, w.toNat?, n.toNat?, nats st with
+      | some bits, some w, some n, some st =>
+        some (showWords (if sgn == "1" then Normalize.encodeNarrow bits w n st else Normalize.encodeNarrowU bits w n st))
+      | _, _, _, _ => some "ERR parse"
+    | ["session.key", me, md], _ =>
+      match optNat0 me, optNat0 md with
+      | some me, some md =>
+        let k := Session.Limits.key { maxLayerSizeToExplore := me, maxDiameter := md }
+        some s!"{k.1} {k.2}"
+      | _, _ => some "ERR parse"
+    | ["gap.parse", hex], _ =>
+      -- the text arrives hex-encoded (UTF-8 bytes) so that it fits on one protocol line
+      let cs := hex.toList
+      let hv (c : Char) : Nat := if c.isDigit then c.toNat - 48 else c.toNat - 87
+      let rec bytes : List Char → List UInt8
+        | a :: b :: t => UInt8.ofNat (hv a * 16 + hv b) :: bytes t
+        | _ => []
+      match String.fromUTF8? (ByteArray.mk (bytes cs).toArray) with
+      | some text =>
+        some (match Gap.parseGap text with
+          | some (gens, central) =>
+            s!"ok ; {" | ".intercalate (gens.map (·.1))} ; {showLL (gens.map (·.2))} ; {showNats central}"
+          | none => "none")
+      | none => some "ERR utf8"
+    | ["puzzle", kind], [args] =>
+      match nats args with
+      | some a =>
+        let pz : Option Puzzles.Puzzle :=
+          match kind, a with
+          | "globe", [x, y] => some (Puzzles.globe x y)
+          | "rings", [ls, li, rs, ri] => some (Puzzles.hungarianRings ls li rs ri)
+          | "cube_qstm", [n] => some (Puzzles.cubeQstm n)
+          | "cube_qtm", [n] => some (Puzzles.cubeQtm n)
+          | "cube_htm", [n] => some (Puzzles.cubeHtm n)
+          | _, _ => none
+        some (match pz with
+          | some p => s!"ok ; {" | ".intercalate p.names} ; {showLL p.gens} ; {showNats p.central}"
           | none => "none")
       | none => some "ERR parse"
     | ["hash.mix"], [x] => (wordsOf x).map fun l => showInts (l.map fun w => Hash.key (Hash.evalMix Gen.mixSteps w))
